@@ -118,7 +118,13 @@ def judge_forms(stats: Stats, text, doc, origin):
     if base[0] != "ok":
         return
     blob = json.dumps(doc)
-    forms = {"text": lambda: blob, "StringIO": lambda: io.StringIO(blob), "BytesIO": lambda: io.BytesIO(blob.encode("utf-8"))}
+    # other serialisations of the same value: blank space around and inside (RFC 8259 allows it anywhere between tokens),
+    # non-ASCII characters written raw instead of \u-escaped
+    padded = " \n\t" + json.dumps(doc, indent=1) + "\r\n "
+    raw = " " + json.dumps(doc, ensure_ascii=False, separators=(",", ":"))
+    forms = {"text": lambda: blob, "StringIO": lambda: io.StringIO(blob), "BytesIO": lambda: io.BytesIO(blob.encode("utf-8")),
+             "text-padded": lambda: padded, "text-raw": lambda: raw, "StringIO-padded": lambda: io.StringIO(padded),
+             "BytesIO-raw": lambda: io.BytesIO(raw.encode("utf-8"))}
     for fname, mk in forms.items():
         for api, fn in (("findall", lambda d: path.findall(d)), ("finditer", lambda d: [m.obj for m in path.finditer(d)]),
                         ("env.findall", lambda d: env.findall(text, d)), ("match", lambda d: path.match(d)),
@@ -191,6 +197,7 @@ def judge_compound(stats: Stats, texts, ops, doc, origin, forms=False):
     if forms and isinstance(doc, (dict, list)):
         blob = json.dumps(doc)
         routes["findall(text)"] = lambda: comp.findall(blob)
+        routes["findall(padded text)"] = lambda: comp.findall("\n " + json.dumps(doc, indent=2) + "\n")
         routes["findall(StringIO)"] = lambda: comp.findall(io.StringIO(blob))
         routes["finditer(BytesIO)"] = lambda: [m.obj for m in comp.finditer(io.BytesIO(blob.encode()))]
         routes["query(StringIO)"] = lambda: list(comp.query(io.StringIO(blob)).values())
